@@ -51,7 +51,7 @@ def run(chk: core.Check):
     texts = []
     for n in scales:
         texts += list(splitpipe.families(n).values())
-    garb = splitpipe.garbage(rnd, ngarb)
+    garb = splitpipe.garbage(rnd, ngarb) + splitpipe.ugarbage(rnd, ngarb // 2)
     packed = []
     blocks = ["@a{k%d, f = {v}}", "@string{s%d = \"x\"}", "@comment{c%d}", "@preamble{p%d}", "text%d", "@a{k%d, f = {x", "@b{j%d}",
               "@a{k%d,\n f\n = 1,\n g = {a\nb}\n}", "\\\n", "\r\n", " ", "\n\n", "@a{k%d, f = \"a\\\nb\"}"]
